@@ -1,3 +1,465 @@
-/-! C14 model (stub) -/
+import OtelVerif.Model.C14Types
+import OtelVerif.Gen.Opaque
+/-!
+# C14 model: opaque strings under `fmt`, under the marshalling libraries, and under the config-map encoder
+
+* `MExpr.eval` — what a (regenerated) method of `configopaque.String` returns for a receiver value.
+* `pa`/`pv`/`rawLeaves` — the dispatch of `fmt` (`printArg`, `handleMethods`, `printValue`, `badVerb`,
+  `fmtPointer`, `fmtString` of go1.23 `fmt/print.go`) for an operand tree whose leaves of interest are
+  opaque strings: for every opaque leaf that contributes text to the output, *which text* reaches
+  fmt's string formatter and *how* it was obtained.  The final bytes are `fmtS/fmtQ/fmtSx` (padding,
+  precision, quoting — library code) applied to that text; they are a function of the leaf text.
+* `pathConsult` — which interface `encoding/json`, yaml.v3, `encoding/gob`, zap … consult for a value
+  of string kind in value / map-key position.
+* `enc` — `confmap/internal/mapstructure/encoder.go` (`encode`, `encodeStruct`, `encodeSlice`,
+  `encodeMap`, `encodeHook` with the hook chain of `confmap.encoderConfig`) over value trees.
+
+Secrets are supplied by an environment `ρ : Nat → String`; a leaf `opq i` holds `ρ i`.  Every
+function reads `ρ i` exactly where the Go code reads the string value.
+-/
 namespace OtelVerif.C14
+open OtelVerif.Gen
+
+/-! ## methods -/
+
+def MExpr.eval : MExpr → String → String
+  | .recv, s => s
+  | .lit c, _ => c
+  | .goQuote e, s => "\"" ++ e.eval s ++ "\""   -- exact when the text needs no escaping (the marker)
+  | .cat a b, s => a.eval s ++ b.eval s
+
+def MExpr.usesRecv : MExpr → Bool
+  | .recv => true
+  | .lit _ => false
+  | .goQuote e => e.usesRecv
+  | .cat a b => a.usesRecv || b.usesRecv
+
+/-- type descriptor: the method table of the opaque type -/
+abbrev TD := List Method
+
+/-- method `name` in the method set of a value (`viaPtr = false`) or of a pointer to it -/
+def TD.find (td : TD) (name : String) (viaPtr : Bool) : Option Method :=
+  List.find? (fun m => m.name == name && (m.valueRecv || viaPtr)) td
+
+def TD.has (td : TD) (name : String) : Bool := (td.find name false).isSome
+
+/-! ## value trees -/
+
+structure FieldInfo where
+  name : String        -- mapstructure key: tag name, or lower-cased field name
+  exported : Bool := true
+  omitEmpty : Bool := false
+  squash : Bool := false   -- `squash` or `remain`
+deriving DecidableEq, Repr
+
+inductive GV
+  | opq (i : Nat)                       -- configopaque.String holding secret number i
+  | str (s : String)                    -- plain string
+  | num (n : Nat)                       -- any other primitive
+  | nilv                                -- nil pointer / nil interface
+  | ptr (v : GV)
+  | iface (v : GV)
+  | slice (vs : List GV)
+  | nilSlice
+  | array (vs : List GV)
+  | map (kvs : List (GV × GV))
+  | nilMap
+  | struct (fs : List (FieldInfo × GV))
+deriving Repr
+
+def GV.isOpq : GV → Option Nat
+  | .opq i => some i
+  | _ => none
+
+/-- Array, Slice, Struct, Map: what `printValue` dereferences through a top-level pointer -/
+def GV.isContainer : GV → Bool
+  | .slice _ | .nilSlice | .array _ | .map _ | .nilMap | .struct _ => true
+  | _ => false
+
+/-- kinds for which `fmtPointer` prints an address -/
+def GV.isPointerLike : GV → Bool
+  | .ptr _ | .nilv | .slice _ | .nilSlice | .map _ | .nilMap => true
+  | _ => false
+
+/-! ## fmt -/
+
+inductive How | formatter | goStringer | stringer | errorM | rawKind | badVerbRaw
+deriving DecidableEq, Repr
+
+structure Leaf where
+  how : How
+  text : String
+deriving DecidableEq, Repr
+
+structure FmtCtx where
+  verb : Char
+  sharpV : Bool := false      -- `#` with `%v` (doPrintf moves the flag)
+  wrapErrs : Bool := false    -- Errorf
+deriving DecidableEq, Repr
+
+def stringVerbs : List Char := ['v', 's', 'x', 'X', 'q']
+def pointerVerbs : List Char := ['v', 'p', 'b', 'o', 'd', 'x', 'X']
+
+/-- `handleMethods` for an operand of the opaque type, after the `erroring` and `%w` checks -/
+def methodsOf (td : TD) (c : FmtCtx) (viaPtr : Bool) (s : String) : Option (List Leaf) :=
+  match td.find "Format" viaPtr with
+  | some m => some [⟨.formatter, m.result.eval s⟩]
+  | none =>
+    if c.sharpV then
+      match td.find "GoString" viaPtr with
+      | some m => some [⟨.goStringer, m.result.eval s⟩]
+      | none => none
+    else if stringVerbs.contains c.verb then
+      match td.find "Error" viaPtr with
+      | some m => some [⟨.errorM, m.result.eval s⟩]
+      | none =>
+        match td.find "String" viaPtr with
+        | some m => some [⟨.stringer, m.result.eval s⟩]
+        | none => none
+    else none
+
+/-- `printValue` on the String kind: `fmtString(raw, verb)` -/
+def rawString (c : FmtCtx) (s : String) : List Leaf :=
+  if stringVerbs.contains c.verb then [⟨.rawKind, s⟩] else [⟨.badVerbRaw, s⟩]
+
+mutual
+/-- printing with verb `v` while `p.erroring` (inside a `%!verb(type=…)` diagnostic): no method is consulted.
+`top`: depth 0 (a pointer is followed only there, and only to a container). -/
+def rawLeaves (ρ : Nat → String) (top : Bool) : GV → List Leaf
+  | .opq i => [⟨.badVerbRaw, ρ i⟩]
+  | .str _ => []
+  | .num _ => []
+  | .nilv => []
+  | .ptr v => if top && v.isContainer then rawLeaves ρ false v else []
+  | .iface v => rawLeaves ρ false v
+  | .slice vs => rawLeavesL ρ vs
+  | .nilSlice => []
+  | .array vs => rawLeavesL ρ vs
+  | .map kvs => rawLeavesKV ρ kvs
+  | .nilMap => []
+  | .struct fs => rawLeavesF ρ fs
+def rawLeavesL (ρ : Nat → String) : List GV → List Leaf
+  | [] => []
+  | v :: vs => rawLeaves ρ false v ++ rawLeavesL ρ vs
+def rawLeavesKV (ρ : Nat → String) : List (GV × GV) → List Leaf
+  | [] => []
+  | (k, v) :: kvs => rawLeaves ρ false k ++ rawLeaves ρ false v ++ rawLeavesKV ρ kvs
+def rawLeavesF (ρ : Nat → String) : List (FieldInfo × GV) → List Leaf
+  | [] => []
+  | (_, v) :: fs => rawLeaves ρ false v ++ rawLeavesF ρ fs
+end
+
+mutual
+/-- `printValue(value, verb, depth)` with `p.erroring = false`; `top` = (depth = 0), `ci` = `value.CanInterface()` -/
+def pv (td : TD) (c : FmtCtx) (ρ : Nat → String) (top ci : Bool) : GV → List Leaf
+  | .opq i =>
+    if !top && ci then
+      if c.verb == 'w' && !((td.find "Error" false).isSome && c.wrapErrs) then [⟨.badVerbRaw, ρ i⟩]
+      else (methodsOf td c false (ρ i)).getD (rawString c (ρ i))
+    else rawString c (ρ i)
+  | .str _ => []
+  | .num _ => []
+  | .nilv => []
+  | .ptr v =>
+    let viaMethods : Option (List Leaf) :=
+      match v.isOpq with
+      | some i => if !top && ci && c.verb != 'w' then methodsOf td c true (ρ i) else none
+      | none => none
+    match viaMethods with
+    | some l => l
+    | none =>
+      if !top && ci && c.verb == 'w' then rawLeaves ρ true (.ptr v)          -- handleMethods: %w on a non-error → badVerb
+      else if top && v.isContainer then pv td c ρ false ci v                  -- `&` + printValue(elem, depth+1)
+      else if pointerVerbs.contains c.verb then []                            -- fmtPointer prints the address
+      else rawLeaves ρ true (.ptr v)                                          -- fmtPointer → badVerb → printValue(p.value,'v',0)
+  | .iface v => pv td c ρ false ci v
+  | .slice vs => if !top && ci && c.verb == 'w' then rawLeavesL ρ vs else pvL td c ρ ci vs
+  | .nilSlice => []
+  | .array vs => if !top && ci && c.verb == 'w' then rawLeavesL ρ vs else pvL td c ρ ci vs
+  | .map kvs => if !top && ci && c.verb == 'w' then rawLeavesKV ρ kvs else pvKV td c ρ ci kvs
+  | .nilMap => []
+  | .struct fs => if !top && ci && c.verb == 'w' then rawLeavesF ρ fs else pvF td c ρ ci fs
+def pvL (td : TD) (c : FmtCtx) (ρ : Nat → String) (ci : Bool) : List GV → List Leaf
+  | [] => []
+  | v :: vs => pv td c ρ false ci v ++ pvL td c ρ ci vs
+def pvKV (td : TD) (c : FmtCtx) (ρ : Nat → String) (ci : Bool) : List (GV × GV) → List Leaf
+  | [] => []
+  | (k, v) :: kvs => pv td c ρ false ci k ++ pv td c ρ false ci v ++ pvKV td c ρ ci kvs
+def pvF (td : TD) (c : FmtCtx) (ρ : Nat → String) (ci : Bool) : List (FieldInfo × GV) → List Leaf
+  | [] => []
+  | (fi, v) :: fs => pv td c ρ false (ci && fi.exported) v ++ pvF td c ρ ci fs
+end
+
+/-- strip the interface wrapper(s) of an `any` operand: `printArg` receives the dynamic value -/
+def GV.dyn : GV → GV
+  | .iface v => v.dyn
+  | v => v
+
+/-- `printArg(arg, verb)` for a top-level operand (`Sprintf`, `Sprint`, `Errorf`, … all end here) -/
+def pa (td : TD) (c : FmtCtx) (ρ : Nat → String) (v0 : GV) : List Leaf :=
+  let v := v0.dyn
+  if c.verb == 'T' then []
+  else if c.verb == 'p' then (if v.isPointerLike then [] else rawLeaves ρ true v)
+  else
+    let isErr := (td.find "Error" false).isSome && v.isOpq.isSome
+    if c.verb == 'w' && !(isErr && c.wrapErrs) then rawLeaves ρ true v
+    else
+      let c' := if c.verb == 'w' then { c with verb := 'v' } else c
+      match v with
+      | .opq i => (methodsOf td c' false (ρ i)).getD (rawString c (ρ i))
+      | .ptr w =>
+        match w.isOpq with
+        | some i => (methodsOf td c' true (ρ i)).getD (pv td c ρ true true v)
+        | none => pv td c ρ true true v
+      | _ => pv td c ρ true true v
+
+/-- does the rendering produced from these leaves depend on the secrets?  `prec0`: precision 0
+truncates every string operand to the empty string (`fmtS`, `fmtQ`, `fmtSbx`). -/
+def depends (prec0 : Bool) (l1 l2 : List Leaf) : Bool := !prec0 && l1 != l2
+
+def How.tag : How → String
+  | .formatter => "F" | .goStringer => "G" | .stringer => "S" | .errorM => "E" | .rawKind => "r" | .badVerbRaw => "b"
+
+/-! ### shape classes used by hypotheses and by the search oracle -/
+
+mutual
+/-- positions below the top: every struct field exported, pointers only directly to an opaque string -/
+def GV.plainIn : GV → Bool
+  | .opq _ | .str _ | .num _ | .nilv | .nilSlice | .nilMap => true
+  | .ptr v => v.isOpq.isSome
+  | .iface v => v.plainIn
+  | .slice vs => GV.plainInL vs
+  | .array vs => GV.plainInL vs
+  | .map kvs => GV.plainInKV kvs
+  | .struct fs => GV.plainInF fs
+def GV.plainInL : List GV → Bool
+  | [] => true
+  | v :: vs => v.plainIn && GV.plainInL vs
+def GV.plainInKV : List (GV × GV) → Bool
+  | [] => true
+  | (k, v) :: kvs => k.plainIn && v.plainIn && GV.plainInKV kvs
+def GV.plainInF : List (FieldInfo × GV) → Bool
+  | [] => true
+  | (fi, v) :: fs => fi.exported && v.plainIn && GV.plainInF fs
+end
+
+/-- a top-level operand: additionally a pointer to a plain container -/
+def GV.plainTop (v0 : GV) : Bool :=
+  match v0.dyn with
+  | .ptr w => w.isOpq.isSome || (w.isContainer && w.plainIn)
+  | v => v.plainIn
+
+mutual
+def GV.hasUnexported : GV → Bool
+  | .ptr v => v.hasUnexported
+  | .iface v => v.hasUnexported
+  | .slice vs => GV.hasUnexportedL vs
+  | .array vs => GV.hasUnexportedL vs
+  | .map kvs => GV.hasUnexportedKV kvs
+  | .struct fs => GV.hasUnexportedF fs
+  | _ => false
+def GV.hasUnexportedL : List GV → Bool
+  | [] => false
+  | v :: vs => v.hasUnexported || GV.hasUnexportedL vs
+def GV.hasUnexportedKV : List (GV × GV) → Bool
+  | [] => false
+  | (k, v) :: kvs => k.hasUnexported || v.hasUnexported || GV.hasUnexportedKV kvs
+def GV.hasUnexportedF : List (FieldInfo × GV) → Bool
+  | [] => false
+  | (fi, v) :: fs => !fi.exported || v.hasUnexported || GV.hasUnexportedF fs
+end
+
+/-! ## marshalling libraries: which interface is consulted for a value of string kind -/
+
+inductive Pos | value | mapKey
+deriving DecidableEq, Repr
+
+/-- method names tried in order; `none` in the list means "the raw string of the kind is taken here" -/
+def pathConsult : String → Pos → List (Option String)
+  | "json", .value => [some "MarshalJSON", some "MarshalText", none]
+  | "json", .mapKey => [none]                                   -- encode.go resolveKeyName: string kind first
+  | "yaml", _ => [some "MarshalYAML", some "MarshalText", none] -- yaml.v3 encode.go marshal
+  | "gob", _ => [some "GobEncode", some "MarshalBinary", some "MarshalText", none]
+  | "text", _ => [some "MarshalText"]
+  | "binary", _ => [some "MarshalBinary"]
+  | "zap.Stringer", _ => [some "String"]
+  | "zap.Any", _ => [some "MarshalLogObject", some "Error", some "String", none]
+  | "zap.Reflect", .value => [some "MarshalJSON", some "MarshalText", none]
+  | "conv", _ => [none]                                         -- string(s): the explicit conversion
+  | _, _ => [none]
+
+def resolve (td : TD) : List (Option String) → Option Method
+  | [] => none
+  | none :: _ => none
+  | some n :: rest => match td.find n false with
+    | some m => some m
+    | none => resolve td rest
+
+/-- the text a marshalling path hands to its writer -/
+def pathText (td : TD) (path : String) (pos : Pos) (s : String) : String :=
+  match resolve td (pathConsult path pos) with
+  | some m => m.result.eval s
+  | none => s
+
+def knownPaths : List (String × Pos) :=
+  [("json", .value), ("json", .mapKey), ("yaml", .value), ("yaml", .mapKey), ("gob", .value), ("gob", .mapKey),
+   ("text", .value), ("binary", .value), ("zap.Stringer", .value), ("zap.Any", .value), ("zap.Reflect", .value)]
+
+/-! ## config-map encoder -/
+
+inductive Any
+  | str (s : String)
+  | num (n : Nat)
+  | nil
+  | list (xs : List Any)
+  | map (kvs : List (String × Any))     -- unique keys, insertion order (printed sorted)
+  | typed (v : GV)                      -- a Go value handed on with its static type (the hook chain returned it as is)
+  | rawTyped (s : String)               -- a string-kind value of a named type that the hook chain returned as is
+deriving Repr
+
+inductive EncErr | dupKey | nonStringKey
+deriving DecidableEq, Repr
+
+mutual
+/-- `reflect.Value.IsZero` -/
+def isZero (ρ : Nat → String) : GV → Bool
+  | .opq i => ρ i == ""
+  | .str s => s == ""
+  | .num n => n == 0
+  | .nilv => true
+  | .ptr _ => false
+  | .iface _ => false
+  | .slice _ => false
+  | .nilSlice => true
+  | .array vs => isZeroL ρ vs
+  | .map _ => false
+  | .nilMap => true
+  | .struct fs => isZeroF ρ fs
+def isZeroL (ρ : Nat → String) : List GV → Bool
+  | [] => true
+  | v :: vs => isZero ρ v && isZeroL ρ vs
+def isZeroF (ρ : Nat → String) : List (FieldInfo × GV) → Bool
+  | [] => true
+  | (_, v) :: fs => isZero ρ v && isZeroF ρ fs
+end
+
+/-- `result[key] = v` -/
+def insertKV (m : List (String × Any)) (k : String) (v : Any) : List (String × Any) :=
+  if m.any (fun p => p.1 == k) then m.map (fun p => if p.1 == k then (k, v) else p) else m ++ [(k, v)]
+
+def mergeKVs (m : List (String × Any)) : List (String × Any) → List (String × Any)
+  | [] => m
+  | (k, v) :: rest => mergeKVs (insertKV m k v) rest
+
+/-- `reflect.ValueOf(encoded)`, `Kind() == String` → `v.String()` -/
+def keyString : Any → Option String
+  | .str s => some s
+  | .rawTyped s => some s              -- a string-kind value the hooks left alone: its raw content becomes the key
+  | _ => none
+
+mutual
+/-- `Encoder.encode` -/
+def enc (td : TD) (ρ : Nat → String) : GV → Except EncErr Any
+  | .opq i =>
+    -- default branch → encodeHook: yaml hook (not a struct), TextMarshalerHookFunc, marshalerHookFunc (not a struct)
+    match td.find "MarshalText" false with
+    | some m => .ok (.str (m.result.eval (ρ i)))
+    | none => .ok (.rawTyped (ρ i))
+  | .str s => .ok (.str s)
+  | .num n => .ok (.num n)
+  | .nilv => .ok .nil
+  | .ptr v => enc td ρ v
+  | .iface v => enc td ρ v
+  | .slice vs => do let xs ← encL td ρ vs; pure (.list xs)
+  | .nilSlice => .ok (.list [])
+  | .array vs => .ok (.typed (.array vs))
+  | .map kvs => do let m ← encKV td ρ kvs []; pure (.map m)
+  | .nilMap => .ok (.map [])
+  | .struct fs => do let m ← encF td ρ fs []; pure (.map m)
+def encL (td : TD) (ρ : Nat → String) : List GV → Except EncErr (List Any)
+  | [] => .ok []
+  | v :: vs => do let x ← enc td ρ v; let xs ← encL td ρ vs; pure (x :: xs)
+/-- `encodeMap`, entries in the given order -/
+def encKV (td : TD) (ρ : Nat → String) : List (GV × GV) → List (String × Any) → Except EncErr (List (String × Any))
+  | [], acc => .ok acc
+  | (k, v) :: kvs, acc => do
+    let ek ← enc td ρ k
+    match keyString ek with
+    | none => .error .nonStringKey
+    | some key =>
+      if acc.any (fun p => p.1 == key) then .error .dupKey
+      else do
+        let ev ← enc td ρ v
+        encKV td ρ kvs (acc ++ [(key, ev)])
+/-- `encodeStruct`, fields in declaration order -/
+def encF (td : TD) (ρ : Nat → String) : List (FieldInfo × GV) → List (String × Any) → Except EncErr (List (String × Any))
+  | [], acc => .ok acc
+  | (fi, v) :: fs, acc =>
+    if !fi.exported then encF td ρ fs acc                                     -- !field.CanInterface()
+    else if (fi.omitEmpty && isZero ρ v) || fi.name == "-" then encF td ρ fs acc
+    else do
+      let e ← enc td ρ v
+      if fi.squash then
+        match e with
+        | .map m => encF td ρ fs (mergeKVs acc m)
+        | _ => encF td ρ fs acc                                               -- silently dropped
+      else encF td ρ fs (insertKV acc fi.name e)
+end
+
+/-! ### canonical printing (what the harness prints for `Conf.ToStringMap()`) -/
+
+def hexDigit (n : Nat) : Char :=
+  if n < 10 then Char.ofNat (n + 48) else Char.ofNat (n - 10 + 97)
+
+def hexOf (s : String) : String :=
+  if s.isEmpty then "-" else
+  String.ofList (s.toUTF8.toList.flatMap (fun b => [hexDigit (b.toNat / 16), hexDigit (b.toNat % 16)]))
+
+def GV.kindName : GV → String
+  | .opq _ | .str _ => "string"
+  | .num _ => "int"
+  | .nilv => "nil"
+  | .ptr _ => "ptr"
+  | .iface _ => "interface"
+  | .slice _ | .nilSlice => "slice"
+  | .array _ => "array"
+  | .map _ | .nilMap => "map"
+  | .struct _ => "struct"
+
+def insertSorted (p : String × String) : List (String × String) → List (String × String)
+  | [] => [p]
+  | q :: qs => if p.1 < q.1 then p :: q :: qs else q :: insertSorted p qs
+
+mutual
+def Any.show : Any → String
+  | .str s => "s" ++ hexOf s
+  | .num n => "n" ++ toString n
+  | .nil => "nil"
+  | .list xs => "[" ++ ",".intercalate (Any.showL xs) ++ "]"
+  | .map kvs => "{" ++ ",".intercalate (((Any.showKV kvs).foldr insertSorted []).map (fun p => hexOf p.1 ++ ":" ++ p.2)) ++ "}"
+  | .typed v => "T" ++ v.kindName
+  | .rawTyped _ => "Tstring"
+def Any.showL : List Any → List String
+  | [] => []
+  | x :: xs => x.show :: Any.showL xs
+def Any.showKV : List (String × Any) → List (String × String)
+  | [] => []
+  | (k, v) :: kvs => (k, v.show) :: Any.showKV kvs
+end
+
+mutual
+/-- all strings of the encoded configuration map (keys and values), outside still-typed values -/
+def Any.strings : Any → List String
+  | .str s => [s]
+  | .list xs => Any.stringsL xs
+  | .map kvs => Any.stringsKV kvs
+  | _ => []
+def Any.stringsL : List Any → List String
+  | [] => []
+  | x :: xs => x.strings ++ Any.stringsL xs
+def Any.stringsKV : List (String × Any) → List String
+  | [] => []
+  | (k, v) :: kvs => k :: (v.strings ++ Any.stringsKV kvs)
+end
+
 end OtelVerif.C14
